@@ -449,6 +449,7 @@ func (C12) Judge(c *Ctx, sc *Scenario) []Violation {
 	nontrivial := faults != "none" || path == "sibling" || path == "inplace"
 	if !c.Quiet {
 		c.Stats.Distinct(out.TraceSig(), nontrivial)
+		c.Stats.DistinctIn("step sequences with fault decisions (normalised trace)", out.TraceSig())
 		if sc.Strace != "" && !strings.HasPrefix(sc.Strace, "renameat") {
 			c.Count("fired.strace." + strings.SplitN(sc.Strace, ":", 2)[0])
 		}
